@@ -200,6 +200,44 @@ def run_case(spec):
     except BaseException as e:
         problems.append("parse_stream raised %r" % (e,))
 
+    # (d') several tasks truncated at once (front-truncated logs, remote halves): every task yielded exactly once, none complete
+    if len(by_uuid) >= 2:
+        for attempt in range(3):
+            kept = []
+            truncated = set()
+            for u, tm in by_uuid.items():
+                if len(tm) >= 2 and rng.random() < 0.8:
+                    cut = rng.choice(["first", "last", "random"])
+                    drop = tm[0] if cut == "first" else (tm[-1] if cut == "last" else rng.choice(tm))
+                    kept.extend(m for m in tm if m is not drop)
+                    truncated.add(u)
+                else:
+                    kept.extend(tm)
+            rng.shuffle(kept)
+            try:
+                seen2 = {}
+                for t in Parser.parse_stream(kept):
+                    u = t.root().task_uuid
+                    if u in seen2:
+                        problems.append("parse_stream yielded task %s twice (several truncated tasks in the stream)" % u[:8])
+                    seen2[u] = t
+                    if u in truncated and t.is_complete():
+                        problems.append("a truncated task was reported complete")
+                    if u not in truncated and not t.is_complete():
+                        problems.append("an untruncated task was reported incomplete")
+                if set(seen2) != set(m["task_uuid"] for m in kept):
+                    problems.append("parse_stream yielded %d tasks for %d task uuids in a stream with %d truncated tasks" % (
+                        len(seen2), len(set(m["task_uuid"] for m in kept)), len(truncated)))
+                p2 = Parser()
+                for m in kept:
+                    _, p2 = p2.add(m)
+                left = p2.incomplete_tasks()
+                if len(left) != len(truncated):
+                    problems.append("incomplete_tasks() holds %d tasks, %d were truncated" % (len(left), len(truncated)))
+            except BaseException as e:
+                problems.append("parsing a stream with %d truncated tasks raised %r" % (len(truncated), e))
+            c["multi_truncated_streams"] = c.get("multi_truncated_streams", 0) + 1
+
     # whole-program interleavings (several tasks)
     for _ in range(3 if tier == "quick" else 10):
         order = list(msgs)
